@@ -342,7 +342,8 @@ Fixpoint qset (qs : list (nat * list aentry)) (k : nat) (q : list aentry) : list
 Record aworld : Type := mkAW {
   aw_states : list (model * state);
   aw_queues : list (nat * list aentry);
-  aw_next : nat                              (* next arrival number *)
+  aw_next : nat;                             (* next arrival number *)
+  aw_models : list model                     (* machine.models: the registered models *)
 }.
 
 Fixpoint set_mstate (l : list (model * state)) (m : model) (s : state) : list (model * state) :=
@@ -369,7 +370,26 @@ Section Queue.
     let c := mkCtx (ae_model q) (ae_payload q) (m_send_event mc) in
     match atrigger mc (fun cb => ev cb (ae_payload q)) (fun cb => suspf cb (ae_payload q)) c
                    (ae_event q) (mstate_of w (ae_model q)) with
-    | (tr, st', r) => (tr, r, mkAW (set_mstate (aw_states w) (ae_model q) st') (aw_queues w) (aw_next w))
+    | (tr, st', r) => (tr, r, mkAW (set_mstate (aw_states w) (ae_model q) st') (aw_queues w) (aw_next w) (aw_models w))
+    end.
+
+  (* AsyncMachine.remove_model(m) called from a callback (a synchronous method).  queued=True: the model is
+     unregistered and the shared deque keeps its head (the event in progress) and loses exactly the pending
+     events of m; a call remove_model([m1; m2; ...]) has the effect of the single calls in sequence.  The
+     harness only removes registered models.  (queued='model' / False: not performed by the harness.) *)
+  Definition aremove_model (m : model) (w : aworld) : aworld :=
+    match md with
+    | QAll =>
+        if negb (existsb (Nat.eqb m) (aw_models w)) then w else
+        mkAW (aw_states w)
+             (qset (aw_queues w) 0
+                   (match qget (aw_queues w) 0 with
+                    | [] => []
+                    | h :: tl => h :: filter (fun x => negb (Nat.eqb (ae_model x) m)) tl
+                    end))
+             (aw_next w)
+             (filter (fun x => negb (Nat.eqb x m)) (aw_models w))
+    | _ => w
     end.
 
   (* a callback of entry [cur] awaits model.trigger(e) while a queue is being drained:
@@ -383,8 +403,8 @@ Section Queue.
         enqueue_acts cur (S k) r
           (mkAW (aw_states w)
                 (qset (aw_queues w) key (qget (aw_queues w) key ++ [mkAE (aw_next w) m e (nested_payload cur k)]))
-                (S (aw_next w)))
-    | ARemoveModel _ :: r => enqueue_acts cur (S k) r w
+                (S (aw_next w)) (aw_models w))
+    | ARemoveModel m :: r => enqueue_acts cur (S k) r (aremove_model m w)
     end.
 
   (* the while loop of _process_async on the deque [key]; fuel bounds the number of events *)
@@ -400,7 +420,7 @@ Section Queue.
                 let w2 := enqueue_acts h 0 (acts_of_trace tr) w1 in
                 match r with
                 | AwRet _ =>
-                    let w3 := mkAW (aw_states w2) (qset (aw_queues w2) key (tl (qget (aw_queues w2) key))) (aw_next w2) in
+                    let w3 := mkAW (aw_states w2) (qset (aw_queues w2) key (tl (qget (aw_queues w2) key))) (aw_next w2) (aw_models w2) in
                     match adrain f key w3 with
                     | None => None
                     | Some (bs, x, w4) => Some (mkAB h tr r :: bs, x, w4)
@@ -408,7 +428,7 @@ Section Queue.
                 | AwExn e =>
                     (* clear this deque, re-raise *)
                     Some ([mkAB h tr r], Some e,
-                          mkAW (aw_states w2) (qset (aw_queues w2) key []) (aw_next w2))
+                          mkAW (aw_states w2) (qset (aw_queues w2) key []) (aw_next w2) (aw_models w2))
                 end
             end
         end
@@ -418,7 +438,7 @@ Section Queue.
   Definition atop_trigger (fuel : nat) (w : aworld) (m : model) (e : event) (a : nat)
     : option (list ablock * aresult * aworld) :=
     let q := mkAE (aw_next w) m e a in
-    let w0 := mkAW (aw_states w) (aw_queues w) (S (aw_next w)) in
+    let w0 := mkAW (aw_states w) (aw_queues w) (S (aw_next w)) (aw_models w) in
     match lookup (m_events mc) e with
     | None =>
         (* AsyncMachine._get_trigger -> Machine._get_trigger, before any queue is touched *)
@@ -430,7 +450,7 @@ Section Queue.
             match astep w0 q with (tr, r, w1) => Some ([mkAB q tr r], r, w1) end
         | _ =>
             let key := qkey md m in
-            let w1 := mkAW (aw_states w0) (qset (aw_queues w0) key (qget (aw_queues w0) key ++ [q])) (aw_next w0) in
+            let w1 := mkAW (aw_states w0) (qset (aw_queues w0) key (qget (aw_queues w0) key ++ [q])) (aw_next w0) (aw_models w0) in
             match qget (aw_queues w0) key with
             | _ :: _ => Some ([], AwRet true, w1)           (* len > 1: return True *)
             | [] =>
